@@ -6,4 +6,5 @@ META = {
             'check per parse shape is the honest reach of this technique here.',
     'note': 'The structural relation is checked once per shape, not for every text of the shape. Trusted: the plain AST as reference; CrossHair path partition validated by '
             'native re-execution. Known finding F29 (class synthesis keyed by name only) identified by its witness.',
+    'technique': 'symbolic execution of the parse partitions texts into shapes (CrossHair/z3, exhaustive within the bound); the object-model relation is checked natively on the solver-chosen witness of each shape',
 }
